@@ -48,6 +48,8 @@ def check(ctx: Ctx):
     ctx.rule("R-DISPATCH", "hard/soft and extensive/intentional are selected by their flag")
     ctx.rule("R-AGREE", "the two forms of a constraint (extensive / intentional) and the two output branches agree")
     ctx.rule("R-NAMES", "names written by one builder are the names read by the other (distribution vs constraints)")
+    ctx.rule("R-COMPLETE", "the DCOP receives every generated variable, constraint, agent and the domain at construction (a variable without constraint is still part of the problem)")
+    ctx.rule("R-DISTINCT", "separately named containers (variable / factor-graph distribution, ...) are separate objects")
     ctx.rule("R-SCENARIO", "removed agents are sampled from the remaining pool and taken out of it")
 
     for mn in (GC, IS, SC):
@@ -67,6 +69,32 @@ def check(ctx: Ctx):
             ctx.touch(m)
             A.check_imports(ctx, m, "R-API")
     ctx.floor("R-API", 20)
+
+    # ---- completeness / aliasing --------------------------------------------------
+    for mn, fn, vexpr in ((GC, "generate", "{v.name: v for v in variables.values()}"), (IS, "generate_ising", "{v.name: v for v in variables.values()}")):
+        f = repo.func(mn, fn)
+        ctx.touch(f)
+        mk = [c for c in walk_no_nested(f.node) if isinstance(c, ast.Call) and call_name(c) == "DCOP"]
+        ok = len(mk) == 1
+        if ok:
+            kw = {k.arg: norm(k.value) for k in mk[0].keywords}
+            ok = kw.get("variables") == vexpr and kw.get("constraints") == "constraints" and kw.get("agents") == "agents" and "domains" in kw
+        ctx.check(ok, "R-COMPLETE", f"{fn}: DCOP(variables=<all generated variables>, constraints=, agents=, domains=)", f, mk[0] if mk else f.node,
+                  "variables must be handed over explicitly: DCOP.add_constraint only registers the variables of a constraint's scope, so a node without edge "
+                  "(allow_subgraph, a 1-variable problem) would vanish while its agent is still emitted")
+        vf = f if mn == GC else repo.func(IS, "generate_binary_variables")
+        ctx.touch(vf)
+        vl = [l for l in walk_no_nested(vf.node) if isinstance(l, ast.For) and norm(l.iter).replace("enumerate(", "").replace("sorted(", "").rstrip(")").endswith("graph.nodes")]
+        ok = len(vl) == 1
+        if ok:
+            vs = [a for a in walk_no_nested(vl[0]) if isinstance(a, ast.Assign) and isinstance(a.targets[0], ast.Subscript) and norm(a.targets[0].value) == "variables"]
+            mkv = [c for c in walk_no_nested(vl[0]) if isinstance(c, ast.Call) and call_name(c) == "Variable"]
+            ok = len(vs) == 1 and len(mkv) == 1 and vs[0] in vl[0].body and not [x for x in walk_no_nested(vl[0]) if isinstance(x, (ast.Continue, ast.Break))]
+        ctx.check(ok, "R-COMPLETE", f"{vf.qualname}: one Variable created and stored for every node of the graph", vf, vl[0] if vl else vf.node, "every node is a requested variable")
+    from .. import aliasrules
+    nb = aliasrules.check_no_alias(ctx, "R-DISTINCT", [f for mn in (GC, IS, SC) for f in repo.all_functions(repo.module(mn))])
+    if nb < 8:
+        raise AnalysisError(f"R-DISTINCT: only {nb} container constructions seen in the generator modules")
 
     # ---- graph colouring ------------------------------------------------------
     gen = repo.func(GC, "generate")
@@ -192,6 +220,10 @@ _G = "pydcop/commands/generators/graphcoloring.py"
 _I = "pydcop/commands/generators/ising.py"
 _S = "pydcop/commands/generators/scenario.py"
 VARIANTS = [
+    ("gc_variables_from_constraints_only", _G, "    dcop = DCOP(\n        name,\n        domains={\"colors\": domain},\n        variables={v.name: v for v in variables.values()},\n        agents=agents,\n        constraints=constraints,\n    )\n",
+     "    dcop = DCOP(name, domains={\"colors\": domain}, agents=agents)\n    for constraint in constraints.values():\n        dcop.add_constraint(constraint)\n", "break", "R-COMPLETE"),
+    ("ising_mappings_aliased", _I, "    fg_mapping = defaultdict(lambda: [])\n    var_mapping = defaultdict(lambda: [])\n", "    fg_mapping = var_mapping = defaultdict(list)\n", "break", "R-DISTINCT"),
+    ("ising_mappings_aliased_by_name", _I, "    fg_mapping = defaultdict(lambda: [])\n    var_mapping = defaultdict(lambda: [])\n", "    fg_mapping = defaultdict(lambda: [])\n    var_mapping = fg_mapping\n", "break", "R-DISTINCT"),
     ("iot_old_pulp_import", "pydcop/commands/generators/iot.py", "from pulp import GLPK_CMD\n", "from pulp.solvers import GLPK_CMD\n", "break", "R-API"),
     ("sample_from_set", _S, "random.sample(sorted(agents), actions_count)", "random.sample(agents, actions_count)", "break", "R-API"),
     ("pool_not_updated", _S, "        agents.difference_update(removed_agents)\n", "", "break", "R-SCENARIO"),
